@@ -89,7 +89,7 @@ PureNames == TypePreds \cup Arith \cup
    "conj", "seq", "take", "take-last", "drop", "drop-last", "subvec", "range", "hash-map",
    "assoc", "dissoc", "get", "contains?", "keys", "vals", "merge", "rename-keys", "get-in",
    "assoc-in", "set", "hash-set", "symbol", "keyword", "pr-str", "str", "read-string", "with-meta", "meta",
-   "assert", "prn", "println"}
+   "assert", "prn", "println", "split", "type?", "future?"}
 
 RECURSIVE HasUnorderedInside(_)
 \* printing a value with a multi-entry map or set inside has no specified text
@@ -110,6 +110,14 @@ StrPlain(v) ==
     [] v.t = "set" -> LET ks == SetToSeq(DOMAIN v.m) IN
          "#{" \o Join([k \in 1..Len(ks) |-> StrPlain(KeyVal(ks[k]))], " ") \o "}"
     [] OTHER -> PrStr(v)
+
+RECURSIVE SplitAt(_, _, _, _)
+\* pieces of s[i..] separated by sep (sep non-empty); cur = the piece being collected
+SplitAt(s, sep, i, cur) ==
+  IF i > Len(s) THEN <<cur>>
+  ELSE IF i + Len(sep) - 1 <= Len(s) /\ SubSeq(s, i, i + Len(sep) - 1) = sep THEN <<cur>> \o SplitAt(s, sep, i + Len(sep), "")
+  ELSE SplitAt(s, sep, i + 1, cur \o Ch(s, i))
+SplitStr(s, sep) == IF sep = "" THEN [k \in 1..Len(s) |-> Ch(s, k)] ELSE SplitAt(s, sep, 1, "")
 
 Pure(name, a) ==
   LET n == Len(a) IN
@@ -289,6 +297,20 @@ Pure(name, a) ==
     [] name = "meta" -> OX
     \* (assert x [message]): an error when x is nil or false, nil otherwise
     [] name = "assert" -> IF n \notin {1, 2} THEN OE ELSE IF Truthy(a[1]) THEN OV(NilV) ELSE OE
+    \* (split s sep): the pieces of s between occurrences of sep, as a vector; an empty sep splits into
+    \* characters (tests/stepH_strings.mal)
+    [] name = "split" -> IF n # 2 \/ a[1].t # "str" \/ a[2].t # "str" THEN OE
+                         ELSE OV(VecV([k \in 1..Len(SplitStr(a[1].s, a[2].s)) |-> StrV(SplitStr(a[1].s, a[2].s)[k])]))
+    [] name = "type?" -> IF n # 1 THEN OE
+                         ELSE (CASE a[1].t = "nil" -> OV(StrV("nil")) [] a[1].t = "list" -> OV(StrV("list"))
+                                 [] a[1].t = "map" -> OV(StrV("hash-map")) [] a[1].t = "vec" -> OV(StrV("vector"))
+                                 [] a[1].t = "set" -> OV(StrV("set")) [] a[1].t = "int" -> OV(StrV("integer"))
+                                 [] a[1].t = "bool" -> OV(StrV("boolean")) [] a[1].t = "sym" -> OV(StrV("symbol"))
+                                 [] a[1].t = "kw" -> OV(StrV("keyword")) [] a[1].t = "str" -> OV(StrV("string"))
+                                 [] a[1].t = "fn" -> OV(StrV("function")) [] a[1].t = "bfn" -> OV(StrV("go-function"))
+                                 [] a[1].t = "atom" -> OV(StrV("atom")) [] a[1].t = "fut" -> OV(StrV("future-call"))
+                                 [] OTHER -> OX)
+    [] name = "future?" -> IF n # 1 THEN OE ELSE OV(BoolV(a[1].t = "fut"))
     \* printing builtins: their output is outside the model, their value is nil
     [] name \in {"prn", "println"} -> OV(NilV)
     [] name = "read-string" -> IF n # 1 THEN OE
